@@ -77,6 +77,37 @@ def run(ctx):
         t = fa.term(b)
         if t["k"] == "assert" and t["msg"]["kind"] == "BoundsCheck":
             pass
+    # whatever the loop shape: the label stored with a user entry (component 2 of the tuples in
+    # self.user_entries) is what addresses its feature set. Labels are not contiguous - the
+    # trainer also labels corpus tokens that have no dictionary counterpart - so a writer that
+    # walks feature_sets in step with user_entries and never reads the label assigns foreign ids
+    label_read = False
+
+    def scan_places(x):
+        nonlocal label_read
+        if isinstance(x, dict):
+            if "l" in x and "p" in x and isinstance(x["l"], int):
+                fs = [e for e in x["p"] if isinstance(e, dict) and e.get("o") == "(tuple)" and e.get("f") == 2]
+                if fs:
+                    ap = E.ap_place(fa, x)
+                    if ap is not None and "user_entries" in [str(q) for q in ap.proj]:
+                        label_read = True
+                return
+            for k, v in x.items():
+                if k not in ("sp", "fn_sp", "func"):
+                    scan_places(v)
+        elif isinstance(x, list):
+            for v in x:
+                scan_places(v)
+    for bb in fa.blocks:
+        scan_places(bb["stmts"])
+        scan_places(bb["term"])
+    if not label_read:
+        ctx.ob("LABELBASE", "%s|user-row-label-1" % P_WD, False, loc,
+               "write_dictionary never reads the label stored with a user entry: user rows are not "
+               "addressed by their label (labels are not contiguous with the unknown-word labels when "
+               "the corpus contains tokens without a dictionary counterpart)")
+        return
     ctx.floor("LABELBASE", "accesses to merged_model.feature_sets", len(idxs), 3)
     kinds = {}
     for b, e, t in idxs:
